@@ -307,6 +307,19 @@ def hash_routes(out, rng):
             routes += [('from_bytes', lambda: mido.MetaMessage.from_bytes(m.bytes()).copy(time=m.time)),
                        ('reversed-kwargs', lambda: mido.MetaMessage(m.type, **dict(reversed([(k, v) for k, v in vars(m).items() if k != 'type'])))),
                        ('copy-override', lambda: m.copy(time=m.time))]
+        # equal messages whose values are equal numbers of different types (1 == 1.0 == True): still equal, so still one dictionary key
+        def numeric_twin(kind):
+            kw = {k: v for k, v in vars(m).items() if k != 'type'}
+            if kind == 'float-time' and isinstance(kw.get('time'), int) and not isinstance(kw.get('time'), bool):
+                kw['time'] = float(kw['time'])
+            elif kind == 'int-time' and isinstance(kw.get('time'), float) and kw['time'].is_integer():
+                kw['time'] = int(kw['time'])
+            elif kind == 'bool-values':
+                for k, v in kw.items():
+                    if type(v) is int and v in (0, 1) and k != 'time':
+                        kw[k] = bool(v)
+            return type(m)(m.type, **kw) if type(m) in (mido.Message, mido.MetaMessage) else m.copy(time=kw['time'])
+        routes += [('float-time', lambda: numeric_twin('float-time')), ('int-time', lambda: numeric_twin('int-time')), ('bool-values', lambda: numeric_twin('bool-values'))]
         f = freeze_message(m)
         for tag, mk in routes:
             n += 1
